@@ -31,8 +31,10 @@ func (s *FileSet) IsInSetSmart(name string) bool {
 	if s.Set[name] {
 		return true
 	}
-	if name == "/" && s.SystemRoot {
-		return true
+	if name == "/" {
+		// the root is not a child of itself: only the system root flag (or a
+		// recursive root entry) covers it, "/*" does not
+		return s.SystemRoot || s.Set["/"]
 	}
 	// check ...
 	level := 0
